@@ -33,6 +33,7 @@ func (pass *AddFields) processObject(_ *Visitor, _ *ast.Schema, object ast.Objec
 	}
 
 	for _, field := range pass.Fields {
+		field = field.DeepCopy()
 		// let's be safe: if a field with the same name already exists, we do not overwrite it.
 		if _, exists := object.Type.AsStruct().FieldByName(field.Name); exists {
 			continue
